@@ -137,7 +137,7 @@ def gen_program(rng, n):
     for _ in range(n):
         r = rng.random()
         def item(k, named=False):
-            t = rng.choice("sssiccfp" if named else "sssicc")     # std::function / function pointer only through named streams
+            t = rng.choice("sssiccfpn" if named else "sssicc")     # std::function / function pointer only through named streams
             return dict(t=t, v=(rng.randint(0, 999) if t == "i" else rng.choice(["a", "b.", " x ", "", "{}", "|", "\n", "zz"]) + str(k)))
         if r < 0.15 and not alive:
             steps.append(dict(op="SetThr", i=rng.randint(1, 3), v=rng.randint(0, 5)))
